@@ -181,7 +181,10 @@ def build_model(names=None):
 
 MODEL_VOS = ["theories/Interp/Run.vo", "theories/Spec/Wire.vo", "theories/Spec/PcapRead.vo", "theories/Spec/Reasm4.vo", "theories/Spec/Tunnel.vo",
              "theories/Spec/Timeline.vo", "theories/Spec/TcpAccount.vo", "theories/Lex/Scanner.vo", "theories/Lex/LexSpec.vo",
-             "theories/Lib/DocsStd.vo", "theories/Spec/Registry.vo", "theories/Spec/DocCall.vo", "theories/Bind/Binder.vo"]
+             "theories/Lib/DocsStd.vo", "theories/Spec/Registry.vo", "theories/Spec/DocCall.vo", "theories/Bind/Binder.vo",
+             "theories/Spec/Literal.vo", "theories/Lex/Literals.vo", "theories/Parse/Automaton.vo",
+             "theories/Spec/LenPrefix.vo", "theories/Spec/TlsParse.vo", "theories/Spec/DhcpParse.vo", "theories/Spec/DnsParse.vo",
+             "theories/Spec/NbDecode.vo"]
 
 
 def build_everything(extra_vo=(), models=("run",)):
@@ -327,8 +330,13 @@ def run_model(tag, case_text, verbose=False, timeout=1800, shards=None):
     """Feed serialised cases to the extracted model; returns dict id -> result tuple."""
     d = os.path.join(BUILD, "work")
     os.makedirs(d, exist_ok=True)
-    cases = case_text.split("END\n")
-    cases = [c + "END\n" for c in cases if c.strip()]
+    cases, cur = [], []
+    for ln in case_text.splitlines(keepends=True):
+        cur.append(ln)
+        if ln.rstrip("\n") == "END":
+            cases.append("".join(cur)); cur = []
+    if "".join(cur).strip():
+        cases.append("".join(cur) + "END\n")
     shards = shards or min(NPROC, max(1, len(cases) // 8))
     procs = []
     for i in range(shards):
